@@ -87,10 +87,13 @@ StoreC18 == {
   [name |-> "dep2.fn", aliases |-> {}, kind |-> "dep", perm |-> {}, deps |-> {"dep1.fn"}],
   [name |-> "deep.js", aliases |-> {}, kind |-> "fn", perm |-> {}, deps |-> {"mid.fn"}],
   [name |-> "mid.fn", aliases |-> {}, kind |-> "dep", perm |-> {}, deps |-> {"dep1.fn"}],
+  \* a second scriptlet over the same unprivileged intermediate: its privileged grandchild must be checked for
+  \* every rule, also when a privileged rule has already pulled the intermediate in
+  [name |-> "deep2.js", aliases |-> {}, kind |-> "fn", perm |-> {}, deps |-> {"mid.fn"}],
   [name |-> "broken.js", aliases |-> {}, kind |-> "fn", perm |-> {}, deps |-> {"missing.fn"}],
   [name |-> "css.js", aliases |-> {}, kind |-> "other", perm |-> {}, deps |-> {}] }
 ArgTexts == <<"free", "fr, a, b", "free.js, \"q,r\", 's'", "free, a\\,b", "free,  sp  ,x", "free, `b q`", "free, \"un", "free, \"a\" x",
-              "p1, a", "p12, a", "tpl, a, b", "usesp1", "deep", "broken", "css", "nosuch, a", "free, $1 $$", "free, a\"b", "free, a\\b",
+              "p1, a", "p12, a", "tpl, a, b", "usesp1", "deep", "deep2, w", "broken", "css", "nosuch, a", "free, $1 $$", "free, a\"b", "free, a\\b",
               "", "free, {\"a\":1}", "free, a1, a2, a3, a4, a5, a6, a7, a8, a9, a10, a11, a12">>
 PoolC18 == [i \in DOMAIN ArgTexts |-> JsR({H("a.com")}, ArgTexts[i], {})]
     \o [i \in DOMAIN ArgTexts |-> JsR({H("a.com")}, ArgTexts[i], P1)]
